@@ -50,6 +50,8 @@ SCHEDS = [
     {"policy": "rr", "q": 1, "preempt": "line"},
     {"policy": "rr", "q": 2, "preempt": "line"},
     {"policy": "random", "p": 0.4, "preempt": "opcode"},
+    {"policy": "random", "p": 0.5, "preempt": "sync"},
+    {"policy": "pct", "d": 2, "horizon": 150, "preempt": "sync"},
 ]
 
 
@@ -104,7 +106,11 @@ def gen_plan(rng, tier, index):
         names = ["connect", "disconnect", "select", "deselect", "timeoutT7", "nope"]
     ops = []
     for _ in range(rng.choice([2, 4, 8, 15, 30])):
-        if rng.random() < 0.3:
+        r = rng.random()
+        if r < 0.08 and kind == "generated":
+            # fault: a leave handler of the current state fails while the request is performed
+            ops.append(["raise_leave", rng.choice(names)])
+        elif r < 0.35:
             ops.append(["pair", rng.choice(names), rng.choice(names)])
         else:
             ops.append(["one", rng.choice(names)])
@@ -354,6 +360,39 @@ def run(sim, plan):
 
     for op in plan["ops"]:
         hist.append(op)
+        if op[0] == "raise_leave":
+            name = op[1]
+            m2 = model.clone()
+            if m2.fire(name, []) != "ok":
+                continue
+            sim.probe("leave_handler_raises")
+            nontrivial = True
+            before_cur = real_current()
+            boom = {"armed": True}
+
+            def failing(_d, boom=boom):
+                if boom["armed"]:
+                    boom["armed"] = False
+                    raise RuntimeError("leave handler failed")
+
+            states[before_cur].events.leave.register(failing)
+            del log[:]
+            try:
+                fire(name)
+                raised = None
+            except RuntimeError:
+                raised = "handler"
+            except Exception as exc:  # noqa: BLE001
+                raised = type(exc).__name__
+            boom["armed"] = False
+            cur = real_current()
+            if raised == "handler" and cur != before_cur and cur != m2.current:
+                sim.violation("C18.R2", f"request '{name}' from {state_name(before_cur)} was aborted by a failing leave "
+                              f"handler and ended in {state_name(cur)}", sig="C18.R2|aborted-request-third-state")
+            # whatever the engine does with the failed request, it must keep one consistent current state
+            model.current = cur
+            check_consistency(f"after '{name}' with a failing leave handler", hist)
+            continue
         if op[0] == "one":
             name = op[1]
             del log[:]
